@@ -19,7 +19,7 @@ use std::sync::{Arc, Mutex};
 use std::time::{Duration, Instant};
 
 use serde_json::{Value, json};
-use sozu_command_lib::proto::command::{Request, ResponseStatus, WorkerResponse};
+use sozu_command_lib::proto::command::{Request, ResponseStatus, WorkerResponse, response_content::ContentType};
 use vh::wctl::{self, Addrs, MockBackends};
 use vh::worker::Worker;
 
@@ -127,7 +127,7 @@ fn drive(run: u64, seed: u64, index_base: u64, port: u16, quiet: Duration) -> Ru
     let mut probe_conns = 0usize;
     let stop_with_client = rng.below(10) < 3;
 
-    let mut do_batch = |w: &mut Worker, batch: Vec<(String, String)>, ev: &mut Vec<Value>, reqs: &mut Vec<(String, String)>,
+    let do_batch = |w: &mut Worker, batch: Vec<(String, String)>, ev: &mut Vec<Value>, reqs: &mut Vec<(String, String)>,
                         clients_open: usize, seen_cmds: &mut usize, n_resp: &mut u64| {
         // clients_open = connections held by the harness + connections opened by the last probes
         // Upper bound on the slab entries client sessions may hold while this batch is handled:
@@ -186,6 +186,7 @@ fn drive(run: u64, seed: u64, index_base: u64, port: u16, quiet: Duration) -> Ru
             ev.push(json!({"ev": "resp", "run": run, "id": idn, "st": wctl::status_name(r.status)}));
             *n_resp += 1;
         }
+        got
     };
 
     // most runs start with a set-up batch (shuffled, still back-to-back on the real channel) so
@@ -229,7 +230,7 @@ fn drive(run: u64, seed: u64, index_base: u64, port: u16, quiet: Duration) -> Ru
             }
         }
         if !setup.is_empty() {
-            do_batch(&mut w, setup, &mut ev, &mut reqs, 0, &mut seen_cmds, &mut n_resp);
+            let _ = do_batch(&mut w, setup, &mut ev, &mut reqs, 0, &mut seen_cmds, &mut n_resp);
         }
     }
     for _ in 0..batches {
@@ -239,7 +240,7 @@ fn drive(run: u64, seed: u64, index_base: u64, port: u16, quiet: Duration) -> Ru
         // client traffic held across the batch: idle keep-alive connections on HTTP listeners
         match rng.below(4) {
             0 => {
-                let l = *rng.pick(&["hA", "hB"]);
+                let l = *rng.pick(&["hA", "hB", "hA", "hB", "tC", "sD"]);
                 if let Ok(c) = TcpStream::connect_timeout(&ad.listener(l).1, Duration::from_millis(500)) {
                     clients.push(c);
                 }
@@ -271,13 +272,30 @@ fn drive(run: u64, seed: u64, index_base: u64, port: u16, quiet: Duration) -> Ru
         if stopped && !stop_with_client {
             clients.clear();
         }
-        do_batch(&mut w, batch, &mut ev, &mut reqs, clients.len() + probe_conns, &mut seen_cmds, &mut n_resp);
+        let _ = do_batch(&mut w, batch, &mut ev, &mut reqs, clients.len() + probe_conns, &mut seen_cmds, &mut n_resp);
         if stopped {
             break;
         }
         // what clients see now
         if wctl::peek_events(&name).iter().any(|c| c.verb == "ReturnListenSockets") {
             wctl::drain_scm(w.scm_main_to_worker.raw_fd());
+        }
+        // the worker's queryable view of both clusters, in the spec's terms
+        let answers = do_batch(
+            &mut w,
+            CLUSTERS.iter().map(|c| ("QueryCluster".to_string(), c.to_string())).collect(),
+            &mut ev, &mut reqs, clients.len() + probe_conns, &mut seen_cmds, &mut n_resp,
+        );
+        for (i, c) in CLUSTERS.iter().enumerate() {
+            let id = format!("{}-{}", name, reqs.len() - CLUSTERS.len() + i + 1);
+            let info = answers
+                .iter()
+                .find(|r| r.id == id && r.status == ResponseStatus::Ok as i32)
+                .and_then(|r| r.content.clone())
+                .and_then(|c| c.content_type);
+            if let Some(ContentType::Clusters(ci)) = info {
+                ev.push(wctl::view_event(run, c, &ci.vec, &ad));
+            }
         }
         let seen = wctl::run_probes(&ad, &listeners, quiet);
         probe_conns = 0;
@@ -295,7 +313,7 @@ fn drive(run: u64, seed: u64, index_base: u64, port: u16, quiet: Duration) -> Ru
         if !stop_with_client {
             clients.clear();
         }
-        do_batch(&mut w, vec![("SoftStop".to_string(), String::new())], &mut ev, &mut reqs, clients.len() + probe_conns, &mut seen_cmds, &mut n_resp);
+        let _ = do_batch(&mut w, vec![("SoftStop".to_string(), String::new())], &mut ev, &mut reqs, clients.len() + probe_conns, &mut seen_cmds, &mut n_resp);
     }
     // the final answer of a soft stop arrives when the last session is gone
     let mut tail: Vec<WorkerResponse> = Vec::new();
